@@ -4,6 +4,26 @@ SOURCE_COMMITS = []
 NOT_BUILT_REASON = {}
 
 META = {
+    "C03": {
+        "technique": "rapid PBT: round trip + differential against a slice-based reference decoder over generated fragmentations and faults (all truncation offsets per stream); native differential fuzzing in thorough",
+        "text": "Generated record sequences are encoded by the harness's own encoder, delivered through a reader with a generated fragmentation plan and decoded by dockerlog.ParseLog; the outcome (records, clean end vs error) must equal that of an obviously-correct slice-based reference decoder, and un-faulted streams must round-trip exactly. Faults: every truncation offset of the stream, bad timestamp, missing separator, daemon error frame, transport error at a byte offset. Exploration within the stated bounds; the thorough tier adds a coverage-guided byte-level differential fuzz target.",
+        "note": "Trusted base: time.Parse for RFC3339Nano, the harness encoder/reference decoder (60 lines). Frame types other than 0-3 only appear in the fuzz tier.",
+    },
+    "C04": {
+        "technique": "rapid PBT with harness-owned schedules: all n! completion orders (n<=4) of the concurrent ContainerLogs calls; invariants over the merged history",
+        "text": "Per-container logs are served by a fake daemon that gates every ContainerLogs call and releases them in a chosen order; dockerlog.Querier.SelectLogs output is checked for conservation (multiset), per-container order, global time order (when inputs are ordered) and identity of the whole output sequence across all completion orders (exhaustive for n<=4, 24 generated permutations for n=5,6).",
+        "note": "The harness owns the completion order of the opens, not finer goroutine interleavings. Trusted base: fake daemon, encoder.",
+    },
+    "C15": {
+        "technique": "rapid PBT in package main (go build -overlay): generated results x 8 option combinations, exact-bytes validity parser as oracle",
+        "text": "renderResult is called in-package on generated stream results (up to 40 containers, ties, hostile message bytes); the output bytes must parse as exactly one expected line per entry in timestamp order, with palette-consistent colours and no ESC when colour is off; a panic is a violation. Exploration of the input space, all 8 option combinations drawn uniformly.",
+        "note": "Assumes nothing about timestamp colouring or time zone beyond denoting the same instant. Trusted base: time.Parse, the 100-line matcher.",
+    },
+    "C16": {
+        "technique": "rapid PBT in package main against a reference resolution function; end-to-end cobra command runs against a fake daemon with a bracketed wall clock",
+        "text": "parseTimeRange/parseStep are called with a generated clock on all 16 flag combinations, instants in four spellings, Prometheus durations, and malformed/non-positive values, and compared with a reference written from the statement; a second generator drives the real cobra command through the engine to the fake daemon and checks the requested since/until.",
+        "note": "Float tolerance: 1ns for fractional plain-second steps; default step may be either neighbour within 1us of a 250s multiple. The e2e default --end case brackets the wall clock between two reads.",
+    },
     "C20": {
         "technique": "exhaustive enumeration to length 5 + rapid PBT against a reference mapping; selector/json round trip through a fake Docker daemon; native fuzzing in thorough",
         "text": "KeyToLabel is compared with a reference mapping written from the statement on every string of length <=5 over a 13-symbol alphabet (exhaustive) and on random longer keys (validity, identity on valid names, idempotence, equality with the reference); selectability is checked end to end through dockerlog.Querier and Engine.Eval over a fake daemon, and '| json' extraction through the same path. Exploration, not proof: longer keys are sampled.",
